@@ -64,6 +64,17 @@ def check_stateless(ctx, roots, rule="STATELESS", mutation_only=False):
                     r = r.value
                 if isinstance(r, ast.Name):
                     base = r.id
+            if isinstance(n, ast.AugAssign) and isinstance(n.target, ast.Name) and isinstance(n.op, (ast.BitOr, ast.Add, ast.BitAnd, ast.Sub)):
+                # `d |= other` / `lst += other` modify the object in place (dict, set, list)
+                base = n.target.id
+                if base in alias:
+                    mutated.add((fi.module.name, alias[base]))
+                    base = None
+                elif (fi.module.name, base) in state and any(isinstance(g_, ast.Global) and base in g_.names for g_ in ast.walk(fi.node)):
+                    mutated.add((fi.module.name, base))
+                    base = None
+                else:
+                    base = None
             if base in alias:
                 mutated.add((fi.module.name, alias[base]))
             if base and base not in local and (fi.module.name, base) in state:
